@@ -48,7 +48,8 @@ impl<'a> BaseParser for SassParser<'a> {
                     return Err(("expected */.", self.toks.prev_span()).into())
                 }
                 Some(Token { kind: '*', .. }) => {}
-                _ => continue,
+                Some(..) => continue,
+                None => return Err(("expected more input.", self.toks.current_span()).into()),
             }
 
             loop {
